@@ -5,7 +5,7 @@ package main
 // requests with protocol.ReadRequest and answers with protocol.WriteResponse.
 //   FindCoordinator ok, (ApiVersions), JoinGroup ok as member-1, SyncGroup -> error 27,
 //   nobody calls Next, Close.  The journal of api keys must then contain LeaveGroup (13)
-//   if the property held.
+//   for member-1 (regression for the former defect F5).
 
 import (
 	"context"
@@ -136,10 +136,18 @@ func runWireF5() {
 	for _, k := range j.keys {
 		ks = append(ks, fmt.Sprint(k))
 	}
-	res += fmt.Sprintf("find=%d join=%d sync=%d leave=%d closed=1", cnt[10], cnt[11], cnt[14], cnt[13])
+	left := "-"
+	for _, m := range j.members {
+		if strings.HasPrefix(m, "leave:") {
+			left = strings.TrimPrefix(m, "leave:")
+		}
+	}
+	res += fmt.Sprintf("find=%d join=%d sync=%d leave=%d:%s closed=1", cnt[10], cnt[11], cnt[14], cnt[13], left)
 	feats := "wire,journal=" + strings.Join(ks, "-") + "," + strings.Join(j.members, ";")
 	if cnt[13] == 0 {
 		feats += ",close-without-leave,offer-abort-rb"
+	} else {
+		feats += ",leave-after-rebalance-in-progress"
 	}
 	emit("wire", "f5", res, feats)
 }
